@@ -131,6 +131,9 @@ def forms_dd_bdd(b, refs, nm):
         'exist/forall(generator)': lambda t, js, fa: (
             b.forall((x for x in names_of(js)), refs[t]) if fa
             else b.exist((x for x in names_of(js)), refs[t])),
+        # variables given as levels (documented for the dd.bdd manager)
+        'quantify(levels)': lambda t, js, fa: b.quantify(
+            refs[t], {b.level_of_var(nm[j]) for j in js}, forall=fa),
         'apply(tla, cube)': lambda t, js, fa: b.apply(
             '\\A' if fa else '\\E', cube_ref(js), refs[t]),
         'apply(word, cube)': lambda t, js, fa: b.apply(
